@@ -6,7 +6,7 @@ deviations of synced collections encoded once (see DESIGN.md 2.4).
 import copy
 from collections.abc import Mapping, Sequence
 
-from .plain import Inv, Ref, Slice, norm, plain, canon
+from .plain import Inv, Ref, Slice, norm, ordered_eq, plain, canon
 
 DICT_MUT = ["setitem", "delitem", "pop", "popitem", "clear", "update", "setdefault", "reset"]
 DICT_READ = ["getitem", "get", "len", "iter", "contains", "keys", "values", "items", "call",
@@ -328,12 +328,15 @@ def _multiset_eq(a, b):
     return True
 
 
-def same_outcome(kind, m, real, model):
-    """True iff the two outcomes agree (dict iteration order is never compared)."""
+def same_outcome(kind, m, real, model, ordered=False):
+    """True iff the two outcomes agree. Dict iteration order is compared only when ``ordered`` (the
+    caller guarantees a history in which the built-in dict's order is the specified one)."""
     if real.ok != model.ok:
         return False
     if not real.ok:
         return real.family == model.family
+    if ordered:
+        return real.value == model.value and ordered_eq(real.value, model.value)
     if kind == "dict" and m in UNORDERED:
         if not isinstance(real.value, list):
             return False
